@@ -15,6 +15,8 @@ from typing import List
 import torch
 
 import xitorch
+import xitorch.optimize
+import xitorch.integrate
 from xitorch import EditableModule, LinearOperator
 
 from xsim.probe import SIM
@@ -156,10 +158,23 @@ class Maths(object):
         SIM.enter("g16", (self, x))
         return g16_ref(x)
 
+    inner_kind = "quad"
+
     def f_reent(self, y, s):
         # a user function that itself calls another functional on another method
         # of the same object (two wrappers substituting into one object)
         SIM.enter("f_reent", self)
+        k = self.inner_kind
+        if k != "quad":
+            if k == "rootfinder":
+                z = xitorch.optimize.rootfinder(self.f_root, torch.zeros_like(y), params=(s,), method="broyden1", maxiter=30)
+            elif k == "equilibrium":
+                z = xitorch.optimize.equilibrium(self.f_equil, torch.zeros_like(y), params=(s,), method="broyden1",
+                                                 maxiter=30)
+            else:
+                z = xitorch.integrate.solve_ivp(self.f_ode, torch.tensor([0.0, 0.3], dtype=DT), torch.zeros_like(y),
+                                                params=(s,), method="rk4")[-1]
+            return y + 0.2 * torch.tanh(self._W() @ y) - self._b() * s * (1.0 + 0.01 * z.sum())
         # tensor limits: with number limits quad's own backward raises (a matter of another property)
         c = xitorch.integrate.quad(self.f_quad, torch.tensor(0.0, dtype=DT), torch.tensor(1.0, dtype=DT),
                                    params=(s,), n=3).sum()
